@@ -11,6 +11,6 @@ TargetsC == << << <<2,-1>>, <<1,2>>, <<-2,0>>, <<0,-3>> >>,          \* 1: quart
                << <<0,0>>, <<5,15>>, <<-13,16>>, <<-14,-2>> >>,      \* 7: 5 * Pythagorean rotation of Src
                << <<-1,-1>>, <<5,15>>, <<-13,16>>, <<-14,-2>> >> >>  \* 8: the same + noise
 AllConfigs == {"translation", "uniformscale", "rotation", "rotation_m", "similarity", "similarity_m", "similarity_norot", "similarity_norot_m", "affine", "pwa", "tps", "tps_r2logr", "tps_msv"}
-PinvConfigs == {"translation", "uniformscale", "rotation", "similarity", "affine", "pwa", "tps"}
+PinvConfigs == {"translation", "uniformscale", "rotation", "rotation_m", "similarity", "similarity_m", "affine", "pwa", "tps"}
 QuickConfigs == {"translation", "uniformscale", "rotation", "rotation_m", "similarity", "similarity_m", "similarity_norot", "similarity_norot_m", "affine", "pwa", "tps"}
 =============================================================================
